@@ -214,3 +214,20 @@ Theorem C06_ddp_cluster_follows_update_rule :
                                       (Compose.abs_blocks dims nb (mkS v0 st0 0%Z)))).
 Proof. exact @ComposeProofs.ddp_cluster_follows_update_rule. Qed.
 Print Assumptions C06_ddp_cluster_follows_update_rule.
+
+(* ... in particular with the block-to-rank assignment the code computes (C14's greedy assignment of the aligned sizes):
+   any number of groups of gs ranks, any list of block sizes *)
+Theorem C06_ddp_with_lpt_assignment_follows_update_rule :
+  forall F (Op : Scalar.ops F) (c : Optimizer.cfg (F:=F)) (dims : nat -> list nat) (groups gs : nat) (sizes : list Z) nbytes
+         (hs : list (Optimizer.hints (F:=F) * entry (Compose.ograd (F:=F)))) v0 st0 b0,
+    (1 <= gs)%nat -> Forall (fun s => (0 <= s)%Z) sizes ->
+    Forall (fun p => Compose.uniform (fst p) (snd p)) hs ->
+    let P := Compose.optP Op c dims (groups * gs) gs (length sizes) (ComposeProofs.lpt_owner sizes gs) nbytes in
+    exists cl, ddp_run P (map snd hs) (init_cluster P v0 st0 b0) = Some cl /\
+      forall r, r < groups * gs ->
+        tab (length sizes) (fun b => nth b (vals (cget cl r)) [])
+        = map (Optimizer.b_w (F:=F))
+              (snd (Compose.model_run Op c (map (fun p => (fst p, Compose.abs_ins (length sizes) (snd p))) hs) 0%Z
+                                      (Compose.abs_blocks dims (length sizes) (mkS v0 st0 0%Z)))).
+Proof. exact @ComposeProofs.ddp_with_lpt_assignment_follows_update_rule. Qed.
+Print Assumptions C06_ddp_with_lpt_assignment_follows_update_rule.
